@@ -298,7 +298,7 @@ fn fix_sleeps(prog: &mut [Cop], timeout: Option<u64>) {
         return;
     }
     for c in prog.iter_mut() {
-        if let Cop::Send { script, .. } | Cop::Call { script, .. } | Cop::Force { script, .. } = c {
+        if let Cop::Send { script, .. } | Cop::Call { script, .. } | Cop::CallGiveUp { script, .. } | Cop::Force { script, .. } = c {
             for a in script.iter_mut() {
                 if let Act::Sleep(d) = a {
                     *d |= 1;
@@ -608,7 +608,15 @@ pub fn gen_case(family: &str, r: &mut Rng) -> Case {
             }
             let cop = match which {
                 0 => Cop::Send { h, script: script(r, &p, false) },
-                1 => Cop::Call { h, script: script(r, &p, false) },
+                1 => {
+                    let sc = script(r, &p, false);
+                    if r.chance(120) {
+                        // the caller stops waiting (and drops the call's future) after a while
+                        Cop::CallGiveUp { h, script: sc, after: 1 + r.below(30) }
+                    } else {
+                        Cop::Call { h, script: sc }
+                    }
+                }
                 2 => Cop::Ping { h },
                 3 => Cop::Force { h, script: script(r, &p, false) },
                 4 => Cop::Stop { h },
@@ -675,6 +683,11 @@ pub fn gen_case(family: &str, r: &mut Rng) -> Case {
             fin.push(Cop::MkJoin { j: 2, h: 0 });
             fin.push(Cop::Stop { h: 1 });
             fin.push(Cop::AwaitJoin { j: 2 });
+            if r.chance(500) {
+                // a second join, after the first one has been answered
+                fin.push(Cop::MkJoin { j: 2, h: 0 });
+                fin.push(Cop::AwaitJoin { j: 2 });
+            }
         }
         for x in 0..p.nslots {
             fin.push(Cop::Drop { h: x as usize });
